@@ -11,6 +11,8 @@ package main
 import (
 	"bytes"
 	"fmt"
+	"regexp"
+	"sort"
 	"strings"
 )
 
@@ -65,12 +67,30 @@ func (r *Run) DoFork(st Step) {
 		}
 	}
 	snapB := r.Snapshot()
-	// the continuation always ends by draining the ready set: claim order
-	cont := append([]Step{}, st.Cont...)
+	// claim order at the fork point itself: no new items exist yet, so the ids
+	// handed out must be identical on both stores (timestamps of the claims
+	// themselves are normalised: they are minted now)
+	var drain []Step
 	nready := len(r.Obs.ReadyIDs)
 	for i := 0; i <= nready && i < 12; i++ {
-		cont = append(cont, Step{Cmd: &Cmd{Op: "claim", Agent: fmt.Sprintf("drain%d@h", i)}})
+		drain = append(drain, Step{Cmd: &Cmd{Op: "claim", Agent: fmt.Sprintf("drain%d@h", i)}})
 	}
+	{
+		r.Restore(snapA)
+		nv := len(r.VL.V)
+		dA := r.runCont(drain)
+		r.VL.V = r.VL.V[:nv]
+		r.Restore(snapB)
+		dB := r.runCont(drain)
+		for i := range dA.exit {
+			if i < len(dB.exit) && (dA.exit[i] != dB.exit[i] || !bytes.Equal(normaliseReply(dA.stdout[i]), normaliseReply(dB.stdout[i]))) {
+				r.viol("C05", "fork-diverges", "claim|claim-order", "claim #%d of a drain started right after compaction answers %s, on the uncompacted store it answers %s", i+1, q(string(dB.stdout[i])), q(string(dA.stdout[i])))
+				break
+			}
+		}
+		r.W.Count.Inc("c05.claim_drains")
+	}
+	cont := append([]Step{}, st.Cont...)
 	r.Restore(snapA)
 	before := len(r.VL.V)
 	resA := r.runCont(cont)
@@ -95,6 +115,48 @@ func (r *Run) DoFork(st Step) {
 	resB := r.runCont(cont)
 	r.W.Count.Inc("c05.forks")
 	r.W.Count.Add("c05.continuation_steps", len(resA.exit))
+	// Ids, uuids and timestamps minted during the continuation may legitimately
+	// differ between the two sides when the implementation consumes entropy or
+	// clock differently depending on the shape of the log (e.g. a random
+	// temp-file name used only when a torn tail has to be repaired). If the
+	// strict comparison fails, compare modulo a renaming of the items created
+	// during the continuation and modulo timestamp values.
+	strict := true
+	for i := range resA.exit {
+		if i < len(resB.exit) && (resA.exit[i] != resB.exit[i] || !bytes.Equal(resA.stdout[i], resB.stdout[i])) {
+			strict = false
+		}
+	}
+	relaxed := false
+	origA := append([]*Obs(nil), resA.obs...)
+	ren := map[string]string{}
+	if !strict {
+		ok := true
+		for i := range resA.exit {
+			if i >= len(resB.exit) {
+				break
+			}
+			a, b := mintedIDs(resA.stdout[i]), mintedIDs(resB.stdout[i])
+			if len(a) != len(b) {
+				ok = false
+				break
+			}
+			for k := range a {
+				ren[b[k]] = a[k]
+			}
+		}
+		if ok {
+			relaxed = true
+			r.W.Count.Inc("c05.relaxed_comparisons")
+			for i := range resB.stdout {
+				resB.stdout[i] = normaliseReply(renameAll(resB.stdout[i], ren))
+				resA.stdout[i] = normaliseReply(resA.stdout[i])
+				resB.obs[i] = renameObs(resB.obs[i], ren)
+				resA.obs[i] = stripTimes(resA.obs[i])
+				resB.obs[i] = stripTimes(resB.obs[i])
+			}
+		}
+	}
 	for i := range resA.exit {
 		if i >= len(resB.exit) {
 			break
@@ -113,10 +175,23 @@ func (r *Run) DoFork(st Step) {
 			r.viol("C05", "fork-diverges", c.Op+"|exit", "after compaction %s exits %d, without compaction it exits %d", c.String(), resB.exit[i], resA.exit[i])
 			break
 		}
-		if !bytes.Equal(resA.stdout[i], resB.stdout[i]) {
+		if relaxed && c.IsRead() {
+			// listings are ordered by id: after a renaming their byte order is
+			// not comparable; the observations below are
+		} else if !bytes.Equal(resA.stdout[i], resB.stdout[i]) {
 			cls := "reply"
 			if c.Op == "claim" {
 				cls = "claim-order"
+				if relaxed {
+					// both sides handed out a task, but not the same one: legitimate
+					// only if the two tasks tie on creation time (ids minted during
+					// the continuation differ between the sides and break the tie)
+					ia, ib := str(asMap(mustJSON(resA.stdout[i])), "id"), str(asMap(mustJSON(resB.stdout[i])), "id")
+					if xa, xb := origA[i].Items[ia], origA[i].Items[ib]; ia != "" && ib != "" && xa != nil && xb != nil && xa.CreatedAt == xb.CreatedAt {
+						r.W.Count.Inc("c05.tie_divergence_accepted")
+						break
+					}
+				}
 			}
 			r.viol("C05", "fork-diverges", c.Op+"|"+cls, "after compaction %s answers %s, without compaction it answers %s", c.String(), q(string(resB.stdout[i])), q(string(resA.stdout[i])))
 			break
@@ -196,4 +271,105 @@ func runForkGenerated(bin string, seed uint64) *RunReport {
 	}
 	r.Finish()
 	return r.Report()
+}
+
+var tsRe = regexp.MustCompile(`[0-9]{4}-[0-9]{2}-[0-9]{2}T[0-9:.]+Z`)
+var uuidRe = regexp.MustCompile(`[0-9a-f]{8}-[0-9a-f]{4}-[0-9a-f]{4}-[0-9a-f]{4}-[0-9a-f]{12}`)
+
+// mintedIDs: ids a reply reports as newly created (new: id; plan: epic + tasks), in order.
+func mintedIDs(stdout []byte) []string {
+	v, err := parseOneJSON(stdout)
+	if err != nil {
+		return nil
+	}
+	m := asMap(v)
+	var ids []string
+	if k := str(m, "kind"); k == "task" || k == "epic" {
+		ids = append(ids, str(m, "id"))
+	}
+	if str(m, "kind") == "plan" {
+		ids = append(ids, str(asMap(m["epic"]), "id"))
+		for _, t := range asList(m["tasks"]) {
+			ids = append(ids, str(asMap(t), "id"))
+		}
+	}
+	return ids
+}
+
+func renameAll(b []byte, ren map[string]string) []byte {
+	// longest-first, via placeholders, so that chains of renames cannot collide
+	var olds []string
+	for o := range ren {
+		if o != "" {
+			olds = append(olds, o)
+		}
+	}
+	sort.Strings(olds)
+	s := string(b)
+	for i, o := range olds {
+		s = strings.ReplaceAll(s, o, fmt.Sprintf("\x00R%d\x00", i))
+	}
+	for i, o := range olds {
+		s = strings.ReplaceAll(s, fmt.Sprintf("\x00R%d\x00", i), ren[o])
+	}
+	return []byte(s)
+}
+
+func normaliseReply(b []byte) []byte {
+	b = tsRe.ReplaceAll(b, []byte("<time>"))
+	return uuidRe.ReplaceAll(b, []byte("<uuid>"))
+}
+
+func renameObs(o *Obs, ren map[string]string) *Obs {
+	rn := func(id string) string {
+		if n, ok := ren[id]; ok {
+			return n
+		}
+		return id
+	}
+	n := &Obs{Items: map[string]*ObsItem{}, Failures: o.Failures, LogBytes: o.LogBytes, DirList: o.DirList}
+	for id, it := range o.Items {
+		c := *it
+		c.ID = rn(id)
+		c.Epic, c.LEpic = rn(c.Epic), rn(c.LEpic)
+		c.Deps, c.RDeps = nil, nil
+		for _, d := range it.Deps {
+			c.Deps = append(c.Deps, rn(d))
+		}
+		for _, d := range it.RDeps {
+			c.RDeps = append(c.RDeps, rn(d))
+		}
+		sort.Strings(c.Deps)
+		sort.Strings(c.RDeps)
+		n.Items[c.ID] = &c
+	}
+	for _, id := range o.ReadyIDs {
+		n.ReadyIDs = append(n.ReadyIDs, rn(id))
+	}
+	sort.Strings(n.ReadyIDs)
+	return n
+}
+
+func stripTimes(o *Obs) *Obs {
+	n := &Obs{Items: map[string]*ObsItem{}, Failures: o.Failures, LogBytes: o.LogBytes, DirList: o.DirList, ReadyIDs: o.ReadyIDs}
+	for id, it := range o.Items {
+		c := *it
+		c.UUID = ""
+		if c.ClaimedAt != "" {
+			c.ClaimedAt = "<time>"
+		}
+		c.CreatedAt, c.UpdatedAt = "", ""
+		c.Results = nil
+		for _, r := range it.Results {
+			r.CreatedAt, r.Mtime = "", ""
+			c.Results = append(c.Results, r)
+		}
+		n.Items[id] = &c
+	}
+	return n
+}
+
+func mustJSON(b []byte) any {
+	v, _ := parseOneJSON(b)
+	return v
 }
